@@ -15,7 +15,7 @@
    queued batch, or the futs of a running batch. *)
 From Coq Require Import List Arith NArith Bool.
 Import ListNotations.
-Require Import Aiuti.Case_Batcher Aiuti.Case_Batcher_Sound Aiuti.Case_Batcher_Basic Aiuti.Batcher Aiuti.BatcherLimits Aiuti.BatcherTime Aiuti.BatcherInv Aiuti.BatcherProps.
+Require Import Aiuti.Case_Batcher Aiuti.Case_Batcher_Sound Aiuti.Case_Batcher_Basic Aiuti.BatcherSim Aiuti.Case_Batcher_C11 Aiuti.Batcher Aiuti.BatcherLimits Aiuti.BatcherTime Aiuti.BatcherInv Aiuti.BatcherProps.
 
 (* No batch ever carries a key twice. *)
 Theorem no_dup_key_in_batch :
@@ -142,6 +142,25 @@ Theorem monitor_basic_sound :
     forall b items t, In (BatchStart b items t) os -> 1 <= length items /\ NoDup (map fst items).
 Proof. exact ok_basic_sound. Qed.
 Print Assumptions monitor_basic_sound.
+
+(* COMPLETENESS of the FULL monitor ok_C11 (all its conjuncts: the basic ones, no key twice in
+   a batch, FIFO of the observed batches against the monitor's queue of expected requests,
+   immediate answers exactly for calls inside the specified window, outcomes only for pending
+   requests by batches started after the request) on event lists without Chain events: for
+   every configuration and every such event list — any calls, bursts, repeated keys, time,
+   yields in any order, unknown / repeated keys, raises, returns, cancellations, SetMax — the
+   monitor accepts the canonical trace of the model.  So on a case where the implementation
+   agrees with the model, ok_C11 cannot raise a false alarm; conversely a rejection of an
+   implementation trace is a real difference from the model, whose traces satisfy the
+   theorems above.  The proof (Case_Batcher_C11.v) is a simulation between the model state and
+   the monitor's specification state; its heart is [spec_ret]: the monitor's window
+   specification decides exactly like the retention cache.  PARTIAL only in that Chain events
+   (tasks calling again in the continuation of their answer) are excluded. *)
+Theorem monitor_complete_nochain :
+  forall c evs w, cfg_ok c -> Forall ev_ok evs -> forallb (fun e => negb (is_chain e)) evs = true ->
+  ok_C11 (BCase c evs (map canon (fst (run c evs))) w) = true.
+Proof. exact ok_C11_complete. Qed.
+Print Assumptions monitor_complete_nochain.
 
 (* Soundness of the full monitor, PARTIAL.  ok_C11 (Case_Batcher.v) judges the observed trace
    independently of the model.  Proved: acceptance implies that no observed batch
